@@ -13,11 +13,10 @@
 (* counters, memory as functions of the key set), C08 (Fail = stutter),    *)
 (* C16 (one spec for every build configuration).                           *)
 (***************************************************************************)
-EXTENDS Naturals, Sequences, FiniteSets, FiniteSetsExt, SequencesExt, TLC
+EXTENDS ArtShape, FiniteSetsExt, SequencesExt, TLC
 
 CONSTANTS Keys,      \* universe of keys: byte sequences, no key a prefix of another
           Vals,      \* universe of values: records [v |-> repr, n |-> byte length]
-          Caps,      \* inner node capacities, <<4,16,48,256>> in the real code
           NodeSize,  \* bytes of an inner node per size class
           LeafBase   \* bytes of a leaf with empty key and value
 
@@ -30,40 +29,10 @@ VARIABLES map,      \* DOMAIN map \subseteq Keys, map[k] \in Vals
 vars == <<map, shape, grow, shrink, splits>>
 
 -----------------------------------------------------------------------------
-(* Bytes, order, prefixes *)
+(* bytes, order, prefixes, declarative shape: see ArtShape.tla *)
 
-Min2(a, b) == IF a <= b THEN a ELSE b
-
-RECURSIVE LcpFrom(_, _, _)
-LcpFrom(a, b, i) == IF i > Len(a) \/ i > Len(b) \/ a[i] # b[i] THEN i - 1
-                    ELSE LcpFrom(a, b, i + 1)
-Lcp(a, b) == LcpFrom(a, b, 1)       \* length of the longest common prefix
-
-PrefixOf(p, k) == Len(p) <= Len(k) /\ Lcp(p, k) = Len(p)
-
-\* byte-wise lexicographic order; a proper prefix sorts first
-LexLess(a, b) == LET j == Lcp(a, b) IN
-                 IF j = Len(a) THEN j < Len(b)
-                 ELSE IF j = Len(b) THEN FALSE
-                 ELSE a[j + 1] < b[j + 1]
-LexLeq(a, b) == a = b \/ LexLess(a, b)
-
-MaxOf(S) == CHOOSE x \in S : \A y \in S : y <= x
-
------------------------------------------------------------------------------
-(* Shape *)
-
-NClasses == Len(Caps)
-ClassOf(n) == CHOOSE c \in 1..NClasses : n <= Caps[c] /\ (c = 1 \/ n > Caps[c - 1])
-MinSize(c) == IF c = 1 THEN 2 ELSE Caps[c - 1] + 1
 NodeCount(c) == Cardinality({p \in DOMAIN shape : ClassOf(Cardinality(shape[p])) = c})
 NodeCounts == [c \in 1..NClasses |-> NodeCount(c)]
-Bump(f, c) == [f EXCEPT ![c] = @ + 1]
-Zero == [c \in 1..NClasses |-> 0]
-
-\* The declarative shape: the path-compressed radix tree of a key set
-BranchPoints(K) == {SubSeq(k1, 1, Lcp(k1, k2)) : k1 \in K, k2 \in K} \ K
-CanonShape(K) == [p \in BranchPoints(K) |-> {k[Len(p) + 1] : k \in {x \in K : PrefixOf(p, x)}}]
 
 LeafBytes(k) == LeafBase + Len(k) + map[k].n
 MemUse == FoldSet(LAMBDA k, acc : acc + LeafBytes(k), 0, DOMAIN map)
